@@ -308,6 +308,12 @@ fn cmd_check(a: &Args) -> i32 {
     mqv::kf::load(&root);
     run::install_panic_hook();
     run::install_abort_capture(prop, &root.join("replays").join(prop));
+    // before anything else uses the library: both families meet the frames on which they differ, in an order that depends
+    // on which process this is (under a panic guard: a panic here would be reported by the first check that decodes)
+    {
+        let is_child = a.opts.contains_key("child-report");
+        let _ = mqv::run::guard(|| mqv::fam::process_warm(!is_child));
+    }
     let mut env = Env::new(prop, tier, seed, root.clone(), profile());
     if let Some(only) = a.opts.get("only") {
         env.only = only.split(',').map(|x| x.to_string()).collect();
@@ -345,8 +351,6 @@ fn cmd_check(a: &Args) -> i32 {
         }
     }
     let child_mode = a.opts.get("child-report");
-    // (under a panic guard: a panic here is a finding of its own, reported by the first check that decodes anything)
-    let _ = mqv::run::guard(|| mqv::fam::process_warm(child_mode.is_none()));
 
     if let Some(path) = child_mode {
         let j = J::obj(vec![
